@@ -107,7 +107,8 @@ def replay_and_crosscheck(rep, prop, res, obs):
     bad = 0
     for w in res.xchecks:
         real = _real_outcome(c, w)
-        if not same(unjson(w.get("predicted")), real):
+        eq = getattr(c, "crosscheck_equal", None)
+        if not (eq(unjson(w), real) if eq is not None else same(unjson(w.get("predicted")), real)):
             bad += 1
             rep.add(Ob(id=f"{prop}/T2/{c.fname}/engine-crosscheck", tier="T2", status=UNDECIDED, function=c.target,
                        detail=f"ENGINE MODEL DISAGREES WITH CPYTHON on {w}: real result {real!r}"))
